@@ -322,7 +322,24 @@ def gen_program(rng, fragment, level, max_stmts=None):
         if rng.random() < 0.4:
             params.append(['bind', g.name(), g.s()])
         prog = ['seq', pre_binds + [['def', ['seq', []], ['bind', 'main', d], params, body]] + post_binds]
+    if rng.random() < 0.25:
+        # other spellings for the same program: soft keywords, `_`, test_-prefixed, self (nothing may depend on how a name is spelt)
+        g.stats['respelt'] = 1
+        prog = respell(prog, SPELLINGS)
     return prog, g.hints, g.stats
+
+
+SPELLINGS = {'a': 'match', 'b': 'lambda_b', 'c': '_', 'd': 'test_d', 'e': 'self', 'f': 'case', 'i': 'cls', 'j': 'soft_j', 'k': '__k__'}
+
+
+def respell(x, table):
+    if isinstance(x, list):
+        return [respell(y, table) for y in x]
+    if isinstance(x, tuple):
+        return tuple(respell(y, table) for y in x)
+    if isinstance(x, str):
+        return table.get(x, x)
+    return x
 
 
 # ============================================================================ syntactic facts about Stmt
@@ -1775,7 +1792,7 @@ def deep_probe(kind, n=18):
 def probe_programs():
     """every fixed probe at module level and wrapped in a function"""
     out = []
-    for n, prog in enumerate(PROBES + [deep_probe('if', 26), deep_probe('for', 5), deep_probe('while', 17), deep_probe('mixed', 30)]):
+    for n, prog in enumerate(PROBES + [deep_probe('if', 26), deep_probe('if', 80), deep_probe('for', 5), deep_probe('while', 17), deep_probe('mixed', 30)]):
         out.append((prog, {}, 'module', {}))
         out.append((['seq', [['def', ['seq', []], ['bind', 'main', 990 + n], [], prog]]], {}, 'function', {}))
     return out
